@@ -51,6 +51,7 @@ type n2nMsg struct {
 	pass    bool // passes the requested filter
 	finned  bool
 	reqs    int
+	topic   string // source topic
 }
 
 type n2nWorld struct {
@@ -317,7 +318,7 @@ func (w *n2nWorld) opPub(op Op) {
 	}
 	for i := int64(0); i < op.A; i++ {
 		w.nbody++
-		m := &n2nMsg{n: w.nbody, pass: true}
+		m := &n2nMsg{n: w.nbody, pass: true, topic: topic}
 		if w.cfg.Filter == 0 {
 			m.body = []byte(fmt.Sprintf("m%05d|%s", w.nbody, []string{"plain", "{\"not\":\"json", "\x00\xff\n"}[op.C%3]))
 		} else {
@@ -344,9 +345,15 @@ func (w *n2nWorld) opPub(op Op) {
 	}
 }
 
-func (w *n2nWorld) accepted(body []byte) bool {
+// accepted: some destination has the body - under the topic it belongs to: --destination-topic
+// if given, else the name of the topic it was consumed from
+func (w *n2nWorld) accepted(m *n2nMsg) bool {
+	want := "sink"
+	if !w.cfg.DestTopic {
+		want = m.topic
+	}
 	for _, d := range w.dests {
-		if d.has(body) {
+		if d.hasOn(m.body, want) {
 			return true
 		}
 	}
@@ -365,7 +372,7 @@ func (w *n2nWorld) onFin(_ *connTap, id string, body []byte, known bool) {
 		return
 	}
 	w.rc.Probe("fin_checked")
-	if m.pass && !w.accepted(m.body) {
+	if m.pass && !w.accepted(m) {
 		w.rc.Violate("C20", "finished-before-accepted", "nsq_to_nsq wrote FIN for m%05d (requeued %d times before) although no destination has accepted its body", m.n, m.reqs)
 		return
 	}
@@ -380,7 +387,7 @@ func (w *n2nWorld) drain() {
 		var out []*n2nMsg
 		w.mu.Lock()
 		for _, m := range w.msgs {
-			if m.acked && m.pass && !w.accepted(m.body) {
+			if m.acked && m.pass && !w.accepted(m) {
 				out = append(out, m)
 			}
 		}
